@@ -93,6 +93,8 @@ def pairs(tier):
 def run(ses):
     jobs = [(job_verbatim, (y,)) for y in PROTOCOLS] + [(job_relabel, xy) for xy in pairs(ses.tier)]
     jobs += upper.confusion_jobs(ses.tier)
+    from .. import kani as _kani
+    jobs.append((_kani.job_le64, ()))        # the PAE length prefix is a summary in the SMT runs: Kani checks le64 itself on the compiled code (all 2^64 inputs)
     run_jobs(ses, jobs)
     ses.trusted_base = TRUSTED
     ses.assumptions = ['same key bytes on both sides where the key types coincide (32-byte symmetric keys; Ed25519 keys of v2/v4); otherwise Y\'s key is arbitrary']
@@ -100,3 +102,4 @@ def run(ses):
 
 confirm = c01.confirm
 replay = c01.replay
+BASELINE = ['verbatim']
